@@ -6,7 +6,7 @@ from common import cz, cbool, clist, copt
 ID = 'C18'
 GEN_MODULES = ['Ident', 'Classes', 'Flags']
 MODEL_TARGETS = ['coq/C18/Run.vo']
-PROOF_TARGETS = ['coq/C18/Proofs.vo']
+PROOF_TARGETS = ['coq/C18/Proofs.vo', 'coq/C18/ProofsSlots.vo']
 PROPS_FILE = 'coq/Props/C18.v'
 RUN_MODULE = 'QCE.C18.Run'
 COQ_HEADER = 'From Gen Require Import Ident Classes Flags.\nFrom QCE Require Import Core.Model Core.Run C18.Model.'
@@ -31,7 +31,8 @@ RULE = ('random build programs over all 26 operation classes (coregen.gen_case: 
         'plus a two-qubit family (2-6 simultaneous CPhase / VirtualTwoQubitVacant / TwoQubitOperation / TwoQubitVirtualPhase over 3-6 qubits with JOINED_START relations) '
         'x channel order (none / prefix / permutation of the occupied channels / with an unknown channel / with a repeated channel) '
         'x label map (none / partial / full / with foreign keys) x compact or not x random global durations (each of READOUT, MICROWAVE, FLUX, RESET from {.25,.5,1,2,3,5}) '
-        'x plain or apply_modifiers()-unrolled x circuit observed before the drawing or first looked at by the drawing. '
+        'x plain or apply_modifiers()-unrolled x circuit observed before the drawing or first looked at by the drawing; after the drawing the circuit duration and the times of the '
+        'operation objects the drawing listed are read BEFORE the circuit is listed again, then the full observation; a twin built afterwards gives the true times under the drawing\'s durations. '
         'non-trivial: >= 2 leaves and (nested or explicit relation or shared qubit) and the case was drawn or rejected as the order demands; distinct by hash of the case')
 
 TWOQ = ['CPhase', 'CPhase', 'VirtualTwoQubitVacant', 'VirtualTwoQubitVacant', 'TwoQubitOperation', 'TwoQubitVirtualPhase']
@@ -113,7 +114,7 @@ def decorate(rng, c):
 
 
 def gen_cases(rng, tier):
-    n = 200 if tier == 'quick' else 3000
+    n = 400 if tier == 'quick' else 12000
     cases = []
     for i in range(n):
         if i % 4 == 3:
@@ -185,7 +186,8 @@ def to_coq(c, o):
             f"k_compact := {cbool(c.get('compact', True))}; k_order := {order}; k_labels := {labels}; "
             f"k_occupied := {clist([cz(x) for x in o['occupied']])}; "
             f"k_before := {c_obs_plain(o['before'])}; k_acq_before := {c_acq(o['before'])}; k_draw := {c_draw(o.get('draw'))}; "
-            f"k_error := {cz(o['error'])}; k_after := {c_obs_plain(o['after'])}; k_acq_after := {c_acq(o['after'])}; "
+            f"k_error := {cz(o['error'])}; k_dur_first_after := {cz(o['dur_first_after'])}; "
+            f"k_held_after := {clist(['(%s, %s)' % (cz(a), cz(b)) for a, b in o['held_after']])}; k_after := {c_obs_plain(o['after'])}; k_acq_after := {c_acq(o['after'])}; "
             f"k_ref := {clist([c_oentry(e) for e in o['ref']])} |}}")
 
 
@@ -273,6 +275,8 @@ def _spec_without_offset_bound(c, o):
         return False
     if [(x['s'], x['d']) for x in b['comps']] != [(x['s'], x['d']) for x in a['comps']]:
         return False
+    if o['dur_first_after'] != b['duration'] or (o['held_after'] and o['held_after'] != [[e['s'], e['e']] for e in b['ops']]):
+        return False
     order = c.get('order') or []
     occ = o['occupied']
     if any(q not in occ for q in order):
@@ -316,18 +320,27 @@ def _spec_without_offset_bound(c, o):
     return True
 
 
-LEVEL_TEXT = ('Machine-checked theorems (Coq) over an executable model whose literals are regenerated from the Python source on every run: reorder_indices returns, for a '
-              'duplicate-free requested order of occupied channels, a permutation of the occupied channels that starts with the requested order and keeps the others in '
-              'original order, and rejects (never draws) an order with an unknown channel; row i carries the label given for its channel, by default the channel index; '
-              'every drawn operation gets one component whose transforms sit at x = its start time in the listing under the drawing\'s durations (two-qubit gates that share '
-              'a time slot: shifted by at most duration^2/4, i.e. at most a quarter of the duration when it is <= 1) and y = -(row of the qubit) * 1.2, for two-qubit gates '
-              'and barriers one per qubit; figure width = latest end + 1 and >= 2; and plot_circuit as a state transformer leaves circuit structure and duration settings as '
-              'they were, draws the TRUE times under the compact durations, and leaves both memo tables coherent, so every later observation equals the earlier one - '
-              'derived from a generic memo-table theorem whose hypothesis "every schedule-mutation point invalidates, and the invalidation empties both tables" is discharged '
-              'by computation on the generated flag table (removing an invalidate_start_time_cache() call breaks the proof). The model is tied to the running code by a '
-              'correspondence run in which every case is really drawn with matplotlib/Agg; the clause "drawing succeeds" is exercised there, not proved.')
-LEVEL_NOTE = ('Trusted: Coq kernel (vm_compute), the ast translator gen_flags/gen_classes/gen_ident (fail-closed), the hand-written Core and C18 models (tied by exact comparison of '
-              'description, listing and every pivot on each sampled case), the driver monkey-patches that read the transforms from inside the real plot_circuit call. '
-              'Modelled, not verified: matplotlib itself; Python object identity as listing position; the lru_cache key as (position, own duration). '
-              'Known finding F19 (offset of slot-sharing two-qubit gates grows with the square of their duration) is excused only inside its class. No axioms.')
-TECHNIQUE = 'Coq proof over an executable model with translator-generated flags and tables + generic memo-table theory + correspondence (real Agg drawing) evaluated by vm_compute'
+LEVEL_TEXT = ('Machine-checked theorems (Coq, no axioms) over an executable model whose literals and flags are regenerated from the Python source on every run. '
+              'Channel order: for a duplicate-free requested order of occupied channels reorder_indices returns a permutation of the occupied channels that starts with the '
+              'requested order, the others following in original order (reorder_perm), the row of a requested channel is its position in the request, and an order with an '
+              'unknown channel is rejected and never drawn (reorder_rejects). Labels: row i carries the label given for its channel, by default the channel index. '
+              'Pivots (pivot_spec): every listed operation of a drawn kind gets exactly one component and nothing else is drawn; its transforms - one per drawn qubit, both '
+              'qubits of a two-qubit gate, every qubit of a barrier - sit at y = -(row of the qubit) * spacing, the row exists and carries that channel, and x = its start '
+              'time in the listing under the drawing\'s durations, exactly for every operation that is not a two-qubit gate sharing its start time with another one; a '
+              'slot-sharing gate is element j of a group of n and shifted by (2j/(n-1) - 1) * duration^2 / 4, proved within a quarter of its duration for durations <= 1 '
+              '(and for all durations once the shift is linear: finding F19). Width = latest end + 1, at least 2. '
+              'plot_preserves: from any state with coherent memo tables plot_circuit draws the TRUE schedule under the compact durations (the generated '
+              'VISUALIZATION_DURATION_REGISTRY), restores the duration settings, leaves the structure untouched and both tables coherent, so the observation afterwards '
+              '(operations, start/end/duration, circuit duration, sub-circuits) equals the one before - an instance of a generic memo-table theorem (a table emptied at every '
+              'mutation only ever returns the current value) whose hypothesis "all five schedule-mutation points call invalidate_start_time_cache and it clears both tables" '
+              'is discharged by vm_compute on the generated flag table: removing one call breaks the proof; with the flags of the tree before the fix the model reproduces F8 '
+              '(C18_plot_without_invalidation_refuted). Tie to the running code: every sampled case is REALLY drawn with matplotlib/Agg; description, listing and every '
+              'pivot are compared exactly with the model, and the specification is evaluated on the implementation output. "Drawing succeeds" is exercised there, not proved.')
+LEVEL_NOTE = ('Trusted: Coq kernel (vm_compute), the ast translators gen_flags / gen_classes / gen_ident (fail-closed; a changed shape stops the check), the hand-written Core and C18 '
+              'models (tied by exact comparison on each sampled case, including the binary64 rounding that decides which of two equally low gates is shifted left), the driver '
+              'monkey-patches that read description and transforms from inside the one real plot_circuit call. Modelled, not verified: matplotlib itself (run, not proved); Python '
+              'object identity as listing position; the lru_cache key as (position, own duration) - the real key also hashes upstream operations by value and, since the hand-off fix, '
+              'every listing re-hands links and invalidates, so the real tables are stale in fewer situations than the model\'s. Acquisition indices are a function of the listing order '
+              'and are compared before/after on the implementation only. Operation kinds without a draw component (TwoQubitOperation base class, TwoQubitVirtualPhase) are silently '
+              'skipped by the drawer and treated as outside "drawable kinds". Known finding F19 (quadratic offset) is excused only inside its class, after re-checking every other clause.')
+TECHNIQUE = 'Coq proof over an executable model with translator-generated flags and tables + generic memo-table theory + correspondence (one real Agg drawing per case) evaluated by vm_compute'
